@@ -133,3 +133,38 @@ Proof.
         -- rewrite seg_len_bm. rewrite (wrote_len _ _ _ _ _ (fst q) W) by lia. lia.
       * right. exists [], (mkReg (fst q) (snd q) 0). split; [reflexivity|]. split; [intros x []|left; reflexivity].
 Qed.
+
+(* ------------------------------------------------------------------ writePtr without copy *)
+Lemma write_ptr_hinv f w objs pads q src w' :
+  hinv (w_dst w) objs pads -> In q ((0, 0) :: flat_map slots objs) ->
+  (p_valid src = false \/ In src objs /\ p_member src = false) ->
+  write_ptr (S f) true w (fst q) (snd q) InDst src false = Ok w' ->
+  nsegs (w_dst w') < 4294967296 ->
+  exists pads', hinv (w_dst w') objs (pads ++ pads').
+Proof.
+  intros H Hq Hsrc HW Hns. unfold write_ptr in HW. cbn [write_ptr_gen] in HW.
+  destruct (p_valid src) eqn:EV; cbn [negb] in HW.
+  2:{ unfold lift0 in HW. destruct (writeRawPointer (w_dst w) (fst q) (snd q) 0) as [m'| |] eqn:EW; cbn [bind] in HW; try discriminate.
+      apply Ok_inj in HW. subst w'. cbn [w_dst w_set_dst] in *. exists []. rewrite app_nil_r.
+      apply (hinv_write_inline (w_dst w) objs pads m' q 0); auto. }
+  destruct Hsrc as [X|[Hin Hmem]]; [discriminate|].
+  destruct (hi_good _ _ _ H src Hin) as [_ G]. pose proof G as (Sh & _). unfold shape_ok in Sh.
+  destruct (p_kind src) eqn:EK.
+  - (* struct *)
+    destruct (os_isZero (p_size src)) eqn:EZ.
+    + rewrite empty_struct_word_eq in HW. cbn [of_opt_panic bind] in HW. unfold lift0 in HW.
+      destruct (writeRawPointer (w_dst w) (fst q) (snd q) empty_struct_word) as [m'| |] eqn:EW; cbn [bind] in HW; try discriminate.
+      apply Ok_inj in HW. subst w'. cbn [w_dst w_set_dst] in *. exists []. rewrite app_nil_r.
+      apply (hinv_write_inline (w_dst w) objs pads m' q empty_struct_word); auto.
+    + rewrite Hmem in HW. cbn [orb is_src bind] in HW.
+      destruct (of_opt_panic (rawStructPointer 0 (p_size src))) as [raw| |] eqn:ER; cbn [bind] in HW; try discriminate.
+      eapply (hinv_place (w_dst w) objs pads w q src raw w'); eauto.
+      unfold raw_of. rewrite EK. exact ER.
+  - (* list *)
+    destruct Sh as (Hc & _). cbn [orb is_src bind] in HW. rewrite Hc in HW.
+    destruct (list_raw src) as [raw| |] eqn:ER; cbn [bind] in HW; try discriminate.
+    eapply (hinv_place (w_dst w) objs pads w q src raw w'); eauto.
+    + intros X. rewrite EK in X. discriminate.
+    + unfold raw_of. rewrite EK. exact ER.
+  - destruct Sh.
+Qed.
